@@ -28,13 +28,15 @@ RULE = ('plan = 2-4 objects of random types with names / groups / '
         'modifiable multi-valued attributes, single-valued ones (Sensitive '
         'with falsy and truthy current value), protected attributes, '
         'unsupported and unknown names, indices in {absent, 0, in range, '
-        'len, large, negative}, by owner and non-owner, mixed with '
-        'Activate/Get/restart. Non-trivial: some object saw both a '
+        'len, large, negative}, new Name values that collide with another '
+        'instance, by owner and non-owner, singly or 2-4 in one request '
+        '(Continue/Stop), mixed with Activate/Get/restart. Non-trivial: some object saw both a '
         'successful and a rejected change. Distinct = trace digest.')
 PROBES = ['modify_ok', 'delete_ok', 'set_ok', 'rejected', 'protected_attempt',
           'index_out_of_range', 'negative_index', 'delete_all_by_reference',
           'restart', 'non_owner_attempt', 'falsy_single_valued_set',
-          'unknown_attribute_name']
+          'unknown_attribute_name', 'attr_batch',
+          'attr_batch_continued_after_failure']
 REAL_VS_STUB = {
     'real': ['KmipEngine attribute handlers and setters',
              'AttributePolicy rule table', 'SQLAlchemy list/association '
@@ -140,8 +142,11 @@ def apply(before, uid, op, ver):
     return None
 
 
-def gen_value(r, ctx, n):
+def gen_value(r, ctx, n, li=None):
     if n == 'Name':
+        if li is not None and r.random() < 0.25:
+            # a value another instance of the same object may already have
+            return ['n%d-%d' % (li, r.randrange(3)), 1]
         return [ctx.uname(), 1]
     if n == 'Object Group':
         return r.choice(['g1', 'g2', 'g3', 'g4'])
@@ -150,6 +155,89 @@ def gen_value(r, ctx, n):
     if n == 'Sensitive':
         return r.random() < 0.6
     return 'text'
+
+
+def gen_attr_op(r, ctx, lab, li, fixed_ver):
+    """One attribute operation on the object labelled `lab`; with
+    `fixed_ver` the operation is made to fit that version (batches)."""
+    ref = '@' + lab
+    ver = fixed_ver or r.choice([(1, 0), (1, 2), (1, 4), (2, 0), (2, 0)])
+    y = r.random()
+    if y < 0.55:
+        n = r.choice(list(MULTI))
+    elif y < 0.7:
+        n = 'Sensitive'
+        if ver < (1, 4):
+            if fixed_ver:
+                n = r.choice(list(MULTI))
+            else:
+                ver = (1, 4)
+    elif y < 0.9:
+        n = r.choice(list(PROTECTED_NAMES))
+    else:
+        n = r.choice(['Contact Information', 'x-custom',
+                      'Cryptographic Parameters', 'Link', 'Lease Time',
+                      'Activation Date'])
+    if n in PROTECTED_NAMES:
+        kind, v = PROTECTED_NAMES[n]
+        mk = lambda i=None: gen.A(n, v, i, kind)
+    elif n in ('Contact Information', 'x-custom'):
+        mk = lambda i=None: gen.A(n, 'someone', i, 'text')
+    elif n == 'Cryptographic Parameters':
+        mk = lambda i=None: gen.A(n, {'mode': 1}, i, 'cp')
+    elif n == 'Link':
+        mk = lambda i=None: gen.A(n, [0x101, '1'], i, 'link')
+    elif n == 'Lease Time':
+        mk = lambda i=None: gen.A(n, 60, i, 'interval')
+    elif n == 'Activation Date':
+        mk = lambda i=None: gen.A(n, 1600000000, i, 'date')
+    else:
+        mk = lambda i=None: gen.A(n, gen_value(r, ctx, n, li), i)
+    idx = r.choice([None, 0, 0, 1, 2, 3, 9, -1])
+    k = r.choice(['Modify', 'Modify', 'Delete', 'Delete', 'Set'])
+    if k == 'Set':
+        if fixed_ver and ver < (2, 0):
+            k = 'Modify'
+        else:
+            ver = (2, 0)
+
+    # current values that (may) exist on the object
+    def existing():
+        if n == 'Name':
+            return [r.choice(['n%d-%d' % (li, j) for j in range(3)]
+                             + ['name-%d' % r.randrange(1, 5)]), 1]
+        if n == 'Object Group':
+            return r.choice(['g1', 'g2', 'g3'])
+        if n == 'Application Specific Information':
+            j = r.randrange(3)
+            return ['ns%d' % j, 'data%d' % j]
+        return None
+    if k == 'Set':
+        op = {'op': 'SetAttribute', 'uid': ref, 'new': mk()}
+    elif k == 'Modify':
+        if ver >= (2, 0):
+            op = {'op': 'ModifyAttribute', 'uid': ref, 'new': mk()}
+            ev = existing()
+            if ev is not None and r.random() < 0.85:
+                op['cur'] = gen.A(n, ev)
+            elif n == 'Sensitive' and r.random() < 0.5:
+                op['cur'] = gen.A(n, r.random() < 0.5)
+        else:
+            op = {'op': 'ModifyAttribute', 'uid': ref, 'attr': mk(idx)}
+    else:
+        if ver >= (2, 0):
+            op = {'op': 'DeleteAttribute', 'uid': ref}
+            ev = existing()
+            if ev is not None and r.random() < 0.6:
+                op['cur'] = gen.A(n, ev)
+            elif r.random() < 0.8 or n in ('x-custom',):
+                op['ref'] = n
+            else:
+                op['cur'] = mk()
+        else:
+            op = {'op': 'DeleteAttribute', 'uid': ref, 'name': n,
+                  'index': idx}
+    return op, ver
 
 
 def generate(rng, tier, index):
@@ -187,75 +275,32 @@ def generate(rng, tier, index):
                  'uid': ref}]})
             continue
         actor = 0 if r.random() < 0.88 else 1
-        ver = r.choice([(1, 0), (1, 2), (1, 4), (2, 0), (2, 0)])
-        y = r.random()
-        if y < 0.55:
-            n = r.choice(list(MULTI))
-        elif y < 0.7:
-            n = 'Sensitive'
-            if ver < (1, 4):
-                ver = (1, 4)
-        elif y < 0.9:
-            n = r.choice(list(PROTECTED_NAMES))
-        else:
-            n = r.choice(['Contact Information', 'x-custom',
-                          'Cryptographic Parameters', 'Link', 'Lease Time',
-                          'Activation Date'])
-        if n in PROTECTED_NAMES:
-            kind, v = PROTECTED_NAMES[n]
-            mk = lambda i=None: gen.A(n, v, i, kind)
-        elif n in ('Contact Information', 'x-custom'):
-            mk = lambda i=None: gen.A(n, 'someone', i, 'text')
-        elif n == 'Cryptographic Parameters':
-            mk = lambda i=None: gen.A(n, {'mode': 1}, i, 'cp')
-        elif n == 'Link':
-            mk = lambda i=None: gen.A(n, [0x101, '1'], i, 'link')
-        elif n == 'Lease Time':
-            mk = lambda i=None: gen.A(n, 60, i, 'interval')
-        elif n == 'Activation Date':
-            mk = lambda i=None: gen.A(n, 1600000000, i, 'date')
-        else:
-            mk = lambda i=None: gen.A(n, gen_value(r, ctx, n), i)
-        idx = r.choice([None, 0, 0, 1, 2, 3, 9, -1])
-        k = r.choice(['Modify', 'Modify', 'Delete', 'Delete', 'Set'])
-        if k == 'Set':
-            ver = (2, 0)
-        # current values that (may) exist on the object
-        def existing():
-            if n == 'Name':
-                return [r.choice(['n%d-%d' % (li, j) for j in range(3)]
-                                 + ['name-%d' % r.randrange(1, 5)]), 1]
-            if n == 'Object Group':
-                return r.choice(['g1', 'g2', 'g3'])
-            if n == 'Application Specific Information':
-                j = r.randrange(3)
-                return ['ns%d' % j, 'data%d' % j]
-            return None
-        if k == 'Set':
-            op = {'op': 'SetAttribute', 'uid': ref, 'new': mk()}
-        elif k == 'Modify':
-            if ver >= (2, 0):
-                op = {'op': 'ModifyAttribute', 'uid': ref, 'new': mk()}
-                ev = existing()
-                if ev is not None and r.random() < 0.85:
-                    op['cur'] = gen.A(n, ev)
-                elif n == 'Sensitive' and r.random() < 0.5:
-                    op['cur'] = gen.A(n, r.random() < 0.5)
-            else:
-                op = {'op': 'ModifyAttribute', 'uid': ref, 'attr': mk(idx)}
-        else:
-            if ver >= (2, 0):
-                op = {'op': 'DeleteAttribute', 'uid': ref}
-                ev = existing()
-                if ev is not None and r.random() < 0.6:
-                    op['cur'] = gen.A(n, ev)
-                elif r.random() < 0.8 or n in ('x-custom',):
-                    op['ref'] = n
-                else:
-                    op['cur'] = mk()
-            else:
-                op = {'op': 'DeleteAttribute', 'uid': ref, 'name': n,
-                      'index': idx}
+        if x < 0.3:
+            # several attribute operations in one request: the store can
+            # only be the sum of the items reported successful
+            ver = r.choice([(1, 0), (1, 2), (1, 4), (2, 0), (2, 0)])
+            items = []
+            for _ in range(r.choice([2, 2, 3, 4])):
+                lab, li, cop = r.choice(labels)
+                o, _v = gen_attr_op(r, ctx, lab, li, ver)
+                if r.random() < 0.3:
+                    # rename one instance to the value of a sibling
+                    # instance (legal or not, it must be all or nothing)
+                    nv = gen.A('Name', ['n%d-%d' % (li, r.randrange(2)), 1])
+                    o = {'op': 'ModifyAttribute', 'uid': '@' + lab}
+                    if ver >= (2, 0):
+                        o['new'] = nv
+                        o['cur'] = gen.A('Name', ['n%d-%d' % (
+                            li, r.randrange(3)), 1])
+                    else:
+                        nv['i'] = r.choice([0, 1, 1, 2])
+                        o['attr'] = nv
+                items.append(o)
+            steps.append({'actor': actor, 'ver': list(ver), 'items': items,
+                          'cont': r.choice([1, 1, 1, 2, None]),
+                          'attr_batch': True})
+            continue
+        op, ver = gen_attr_op(r, ctx, lab, li, None)
         steps.append({'actor': actor, 'ver': list(ver), 'items': [op],
                       'attr': True})
     return {'actors': actors, 'seed': r.randrange(1 << 30), 'steps': steps}
@@ -288,6 +333,76 @@ def api_consistent(W, view):
     return probs
 
 
+def run_attr_batch(W, st, probes, flag, ok_on, rej_on):
+    """Several attribute operations in one request. The store afterwards
+    must be the store before with exactly the items reported successful
+    applied in order; failed and unprocessed items contribute nothing."""
+    ver = tuple(st['ver'])
+    before = model.store_view(W.db)
+    resp = W.request(copy.deepcopy(st))
+    W.clock.advance(1)
+    after = model.store_view(W.db)
+    probes['attr_batch'] += 1
+    for u, o in before.items():
+        a = after.get(u)
+        if a is None:
+            flag('object-vanished', op='batch', attr=None)
+            continue
+        for f in PROTECTED:
+            if a[f] != o[f]:
+                flag('protected-attribute-changed', op='batch', attr=f,
+                     uid=u, before=o[f], after=a[f])
+    if resp is None or not resp.items:
+        if after != before:
+            flag('unanswered-call-changed-store', op='batch', attr=None,
+                 escape=W.last['escape'])
+        return
+    exp = before
+    failed = []
+    for k, it in enumerate(resp.items):
+        if k >= len(st['items']):
+            break
+        op = st['items'][k]
+        uid = W.resolve(op['uid'])
+        aname = (op.get('new') or op.get('attr') or op.get('cur') or
+                 {}).get('n') or op.get('name') or op.get('ref')
+        if it['status'] != 0:
+            failed.append([k, op['op'], aname, it['reason_name'],
+                           it['message']])
+            rej_on.add(uid)
+            probes['rejected'] += 1
+            continue
+        ok_on.add(uid)
+        if st['actor'] != 0:
+            flag('non-owner-changed-attribute', op=op['op'], attr=aname)
+        w = apply(exp, uid, op, ver)
+        if w is None:
+            flag('call-succeeded-but-nothing-could-be-addressed',
+                 op=op['op'], attr=aname, request=op, version=ver, item=k)
+            return
+        exp = w
+    if failed and len(resp.items) > failed[0][0] + 1:
+        probes['attr_batch_continued_after_failure'] += 1
+    if exp != after:
+        diffs = {}
+        for u in set(exp) | set(after):
+            if exp.get(u) != after.get(u):
+                diffs[u] = dict(
+                    (k, [exp.get(u, {}).get(k), after.get(u, {}).get(k)])
+                    for k in ('names', 'groups', 'app', 'sensitive')
+                    if exp.get(u, {}).get(k) != after.get(u, {}).get(k))
+        flag('batch-store-is-not-the-sum-of-successful-items' if failed
+             else 'change-is-not-exactly-as-asked',
+             op='batch', attr=None, failed_items=failed,
+             items=[o['op'] for o in st['items']], version=ver,
+             want_vs_got=diffs)
+        return
+    probs = api_consistent(W, after)
+    if probs:
+        flag('getattributes-does-not-reflect-store', op='batch', attr=None,
+             problems=probs[:2])
+
+
 def execute(plan):
     probes = dict((p, 0) for p in PROBES)
     viol = []
@@ -308,6 +423,11 @@ def execute(plan):
                 probes['restart'] += 1
                 if model.store_view(W.db) != b:
                     flag('restart-changed-store')
+                continue
+            if st.get('attr_batch'):
+                run_attr_batch(W, st, probes, flag, ok_on, rej_on)
+                trace.append(kernel.digest_of(sorted(
+                    model.store_view(W.db).items())))
                 continue
             if not st.get('attr'):
                 W.request(copy.deepcopy(st))
